@@ -55,6 +55,10 @@ MUTANTS = [
     # ---------------- C09.R6 lifecycle handlers keep the tensor
     M("c09-qbits-detach-payload-geometry", "C09", "break", [(QBOPS, "    return t.__class__(t._qtype, t._axis, t._group_size, t.size(), t.stride(), data, scale, zeropoint)", "    return t.__class__(t._qtype, t._axis, t._group_size, data.size(), data.stride(), data, scale, zeropoint)")], "C09.R6"),
     M("c09-qbits-detach-drops-group", "C09", "break", [(QBOPS, "    return t.__class__(t._qtype, t._axis, t._group_size, t.size(), t.stride(), data, scale, zeropoint)", "    return t.__class__(t._qtype, t._axis, None, t.size(), t.stride(), data, scale, zeropoint)")], "C09.R6"),
+    # ---------------- C16.R5 / R6
+    M("c16-absmax-no-abs", "C16", "break", [("optimum/quanto/tensor/optimizers/absmax_optimizer.py", "        base = torch.abs(base)\n", "")], "C16.R5"),
+    M("c16-zp-product-first", "C16", "break", [(MAXOPT, "        zeropoint = torch.round(-rmin / scale).to(torch.int8)", "        zeropoint = torch.round(-rmin * (qmax - qmin) / (rmax - rmin)).to(torch.int8)")], "C16.R6"),
+    M("c16-repaired-width", "C16", "refactor", [(MAXOPT, "        scale = (rmax - rmin) / (qmax - qmin)", "        scale = rmax / (qmax - qmin) - rmin / (qmax - qmin)")]),
     # ---------------- idiom refactors that the second batch of independent patches exposed
     M("c14-refactor-group-demorgan", "C14", "refactor", [(GROUP, "    if group_size > axis_numel or axis_numel % group_size != 0:", "    if not (group_size <= axis_numel and axis_numel % group_size == 0):")]),
     M("c14-group-guard-weakened", "C14", "break", [(GROUP, "    if group_size > axis_numel or axis_numel % group_size != 0:", "    if group_size > axis_numel and axis_numel % group_size != 0:")], "C14.R1"),
